@@ -21,6 +21,10 @@ deriving DecidableEq, Repr
 
 def init : State := { signer := none, edSigner := none, published := [], caKeys := [], readySignals := 0 }
 
+/-- start with `keymaster_public_keys_filename` already listing some keys (cluster members list each
+other's CA keys) -/
+def initWith (pre : List Nat) : State := { init with published := pre }
+
 /-- what reaches the injector -/
 inductive Inj
   | noTLS | noVerifiedChain | noPassphraseField
